@@ -660,7 +660,7 @@ func c12HelperSiblings(c *Ctx) {
 			if len(fa.F) != 2 || fold.Show(fa.F[1]) != "payload" || fold.Show(fa.F[0]) != fold.Show(frame(p.Chose("fin") == 1, int64(p.Chose("rsv1")*4)).F[0]) {
 				problems = append(problems, "the sibling is not given the caller's frame "+desc)
 			}
-			if len(sib[0].Args) == 2 && len(f.Params) == 2 && fold.Show(sib[0].Args[0]) != "iface(<nil>:buf)" && !strings.Contains(fold.Show(sib[0].Args[0]), "buf") {
+			if !d.method && len(f.Params) == 2 && len(sib[0].Args) == 2 && nameOf(sib[0].Args[0]) != "buf" {
 				problems = append(problems, "the sibling is not given the caller's buffer "+desc)
 			}
 			ret, _ := p.Ret.(fold.Tuple)
@@ -700,6 +700,7 @@ func c12HelperSiblings(c *Ctx) {
 			return fold.Ref{O: cl.M.NewObj("bytesreader", fold.Sym{Name: "bytes.NewReader(" + fold.Show(cl.Args[0]) + ")"})}
 		}
 		m.Models["io.Copy"] = op("Copy")
+		m.Models["io.CopyBuffer"] = op("Copy") // same contract, caller's scratch buffer
 		m.Models["(*"+wsflate+".Reader).Close"] = op("Close")
 		var problems []string
 		ps := m.Explore(f, func(mm *fold.Machine) []fold.Val {
